@@ -430,9 +430,14 @@ def _pure(e):
     return True
 
 
+MUTATORS = {'append', 'extend', 'insert', 'pop', 'remove', 'clear', 'sort',
+            'reverse', 'update', 'setdefault', 'popitem', 'add', 'discard',
+            'fill', 'resize', 'put', 'itemset'}
+
+
 def _stores(node):
-    """Names and base texts a CFG node's own statement stores to (a call is
-    taken to store to the bases it is invoked on / gets as arguments)."""
+    """Names and base texts a CFG node's own statement stores to (a call of
+    a mutating method stores to the object it is invoked on)."""
     from .defuse import _stored_names
     names = set(_stored_names(node))
     bases = set()
@@ -456,12 +461,8 @@ def _stores(node):
                 bases.add(ast.unparse(n))
             elif isinstance(n, ast.Call):
                 f = n.func
-                if isinstance(f, ast.Attribute):
+                if isinstance(f, ast.Attribute) and f.attr in MUTATORS:
                     bases.add(ast.unparse(f.value))
-                for a in list(n.args) + [k.value for k in n.keywords]:
-                    if isinstance(a, (ast.Name, ast.Attribute,
-                                      ast.Subscript)):
-                        bases.add(ast.unparse(a))
     return names, bases
 
 
@@ -588,10 +589,131 @@ def _propagate(fn, cfg, t):
     fn.body = clean(fn.body)
 
 
+# --------------------------------------------------------------------------
+# 3. specialise new parameters to their default
+# --------------------------------------------------------------------------
+class _Fold(ast.NodeTransformer):
+    """Constant-fold tests after a parameter was replaced by a constant."""
+
+    @staticmethod
+    def const(e):
+        if isinstance(e, ast.Constant):
+            return True, e.value
+        if isinstance(e, ast.UnaryOp) and isinstance(e.op, ast.Not):
+            ok, v = _Fold.const(e.operand)
+            if ok:
+                return True, not v
+        if isinstance(e, ast.Compare) and len(e.ops) == 1 and isinstance(
+                e.left, ast.Constant) and isinstance(
+                    e.comparators[0], ast.Constant):
+            a, b, op = e.left.value, e.comparators[0].value, e.ops[0]
+            try:
+                if isinstance(op, ast.Is):
+                    return True, a is b
+                if isinstance(op, ast.IsNot):
+                    return True, a is not b
+                if isinstance(op, ast.Eq):
+                    return True, a == b
+                if isinstance(op, ast.NotEq):
+                    return True, a != b
+                if isinstance(op, ast.Lt):
+                    return True, a < b
+                if isinstance(op, ast.LtE):
+                    return True, a <= b
+            except TypeError:
+                pass
+        return False, None
+
+    def visit_BoolOp(self, n):
+        self.generic_visit(n)
+        vals = []
+        for v in n.values:
+            ok, c = self.const(v)
+            if ok:
+                if isinstance(n.op, ast.And):
+                    if not c:
+                        return ast.copy_location(ast.Constant(False), n)
+                    continue
+                if c:
+                    return ast.copy_location(ast.Constant(True), n)
+                continue
+            vals.append(v)
+        if not vals:
+            return ast.copy_location(ast.Constant(
+                isinstance(n.op, ast.And)), n)
+        if len(vals) == 1:
+            return vals[0]
+        n.values = vals
+        return n
+
+    def visit_IfExp(self, n):
+        self.generic_visit(n)
+        ok, c = self.const(n.test)
+        if ok:
+            return n.body if c else n.orelse
+        return n
+
+    def visit_If(self, n):
+        self.generic_visit(n)
+        ok, c = self.const(n.test)
+        if ok:
+            return (n.body if c else n.orelse) or [
+                ast.copy_location(ast.Pass(), n)]
+        return n
+
+    def visit_Assert(self, n):
+        return n
+
+
+def specialise_new_params(tree, ref):
+    """A parameter that the reference function does not have and that has a
+    constant default is an option the rest of the package does not use: the
+    function is analysed for the default (the parameter is replaced by the
+    constant, tests on it are folded).  Not done if the function re-binds
+    the parameter or any call in the module passes it."""
+    if ref is None:
+        return tree
+    passed = set()
+    for n in ast.walk(tree):
+        if isinstance(n, ast.Call):
+            passed |= {k.arg for k in n.keywords if k.arg}
+    for q, fn, cls in qualnames(tree):
+        base = ref.get(q) or ref.get(q.split('#')[0])
+        if base is None:
+            continue
+        a = fn.args
+        pos = a.args[len(a.args) - len(a.defaults):]
+        cands = [(p, d) for p, d in zip(pos, a.defaults)] + [
+            (p, d) for p, d in zip(a.kwonlyargs, a.kw_defaults)
+            if d is not None]
+        # only TRAILING new positional parameters (no positional call of the
+        # reference signature can reach them)
+        npos = len(a.args)
+        for p, d in cands:
+            if p.arg in base or p.arg in passed or not isinstance(
+                    d, ast.Constant):
+                continue
+            if p in a.args and any(x.arg in base for x in
+                                   a.args[a.args.index(p):]):
+                continue
+            if any(isinstance(x, ast.Name) and x.id == p.arg and isinstance(
+                    x.ctx, (ast.Store, ast.Del)) for x in ast.walk(fn)):
+                continue
+            fn.body = [_Subst({p.arg: d}).visit(st) for st in fn.body]
+            new = []
+            for st in fn.body:
+                r = _Fold().visit(st)
+                new.extend(r if isinstance(r, list) else [r])
+            fn.body = new
+    ast.fix_missing_locations(tree)
+    return tree
+
+
 def normalise(tree, rel):
     ref = known().get(rel)
     if ref is None:
         return tree
+    specialise_new_params(tree, ref)
     inline_new_helpers(tree, ref)
     propagate_new_temps(tree, ref)
     return tree
